@@ -453,8 +453,8 @@ def text_hostile_strings(ctx):
 
 def zero_subsets_probe(ctx):
     """a message with no subset: both text renderers emit one empty line for the template data and the converters
-    raise ValueError (the model: flat_td_ok / nested_td_ok require a subset).  Recorded, not counted as a violation
-    here: see notes/c09text.md for the proposed known-finding entry."""
+    raise ValueError (the model: flat_td_ok / nested_td_ok require a subset; C09_text_zero_subsets_refuted).  Known finding
+    D34: reported with kind C09-converter-zero-subsets, which known_findings.json lists."""
     from pybufrkit.decoder import Decoder
     from pybufrkit.renderer import FlatTextRenderer, NestedTextRenderer
     from pybufrkit.utils import flat_text_to_flat_json, nested_text_to_flat_json
@@ -469,6 +469,10 @@ def zero_subsets_probe(ctx):
                 out[nm] = 'converts'
             except Exception as e:
                 out[nm] = 'err %d' % lib.err_code(e)
+                # D34 (known finding): a decodable message whose text rendering does not convert back
+                ctx.violation({'kind': 'C09-converter-zero-subsets', 'format': nm, 'error': out[nm],
+                               'case': {'ids': [1001], 'n_subsets': 0, 'bytes': b.hex()}},
+                              'message without any subset: %s text does not convert back to the flat JSON (%s)' % (nm, out[nm]))
             secs, preprs, pvals, shape = sections_of(m)
             if nm == 'flat':
                 cmd, _ = flat_cmd(m, secs, preprs)
